@@ -100,6 +100,12 @@ impl ScenarioProp {
             Flavor::C17 => "C17",
             Flavor::C18 => "C18",
         };
+        if r.found.iter().any(|f| f.class == "build-not-deterministic") {
+            // the precondition "the same sampler" is gone: that is C05's finding,
+            // and anything else seen in this run is a consequence of it
+            r.add("runs_invalidated_by_nondeterministic_build", 1);
+            r.found.retain(|f| f.class == "build-not-deterministic");
+        }
         let (mine, other): (Vec<Found>, Vec<Found>) =
             r.found.drain(..).partition(|f| class_property(&f.class) == me);
         if !other.is_empty() {
